@@ -1045,6 +1045,85 @@ __published:
 };
 """, needs=("string",), pre="#include <string>\n")
 
+# ---- typedef depth 0..3 in front of array / char pointer / enum / class value / class pointer ----
+def _tdepth_atoms():
+    kinds = (
+        # tag, base type, array suffix, value expression, can be returned
+        ("arr", "float", "[3]", None, False),
+        ("cstr", "const char *", "", '"td"', True),
+        ("enum", "TdEnum_e", "", "TDE_b", True),
+        ("cls", "TdCls_v", "", "TdCls_v()", True),
+        ("ptr", "TdCls_p *", "", "0", True),
+    )
+    for tag, base, arr, val, ret in kinds:
+        n = "Td_%s" % tag
+        pre = ""
+        if tag == "enum":
+            pre = "enum TdEnum_e { TDE_a, TDE_b = 4 };\n"
+        elif tag == "cls":
+            pre = "class TdCls_v {\n__published:\n  TdCls_v() : v(2) {}\n  int v;\n};\n"
+        elif tag == "ptr":
+            pre = "class TdCls_p {\n__published:\n  TdCls_p() {}\n};\n"
+        names = ["%s_t%d" % (n, d) for d in range(4)]
+        tds = "typedef %s%s%s%s;\n" % (base, "" if base.endswith("*") else " ", names[1], arr)
+        tds += "typedef %s %s;\ntypedef %s %s;\n" % (names[1], names[2], names[2], names[3])
+        body = [pre, tds, "class %s {\n__published:\n  %s() {}\n" % (n, n)]
+        for d in range(4):
+            if d == 0:
+                pdecl = "%s%sv%s" % (base, "" if base.endswith("*") else " ", arr)
+                mdecl = "%s%sm0%s" % (base, "" if base.endswith("*") else " ", arr)
+                rtype = base
+            else:
+                pdecl = "%s v" % names[d]
+                mdecl = "%s m%d" % (names[d], d)
+                rtype = names[d]
+            body.append("  int p%d(%s) const { return 1; }\n" % (d, pdecl))
+            body.append("  int q%d(int a, %s, int b = 2) const { return a + b; }\n" % (d, pdecl))
+            if ret:
+                body.append("  %s r%d() const { return %s; }\n" % (rtype, d, val))
+            body.append("  %s;\n" % mdecl)
+        body.append("};\n__begin_publish\n")
+        for d in range(1, 4):
+            body.append("inline int %s_f%d(%s v) { return 1; }\n" % (n, d, names[d]))
+            if ret:
+                body.append("inline %s %s_g%d() { return %s; }\n" % (names[d], n, d, val))
+        body.append("__end_publish\n")
+        atom("tdepth_" + tag, "tdepth", "".join(body))
+
+
+_tdepth_atoms()
+
+# ---- class templates with properties / sequences, instantiated for several argument lists ----
+def _template_atoms():
+    def tpl(name):
+        return ("template<class T>\nclass %s {\n__published:\n"
+                "  %s() : field(), _v(), _n(2) { for (int i = 0; i < 4; ++i) _items[i] = T(); }\n"
+                "  T get_value() const { return _v; }\n"
+                "  void set_value(T v) { _v = v; }\n"
+                "  __make_property(value, get_value, set_value);\n"
+                "  int get_num_items() const { return _n; }\n"
+                "  T get_item(int i) const { return _items[i & 3]; }\n"
+                "  void set_item(int i, T v) { _items[i & 3] = v; }\n"
+                "  __make_seq(get_items, get_num_items, get_item);\n"
+                "  __make_seq_property(items, get_num_items, get_item, set_item);\n"
+                "  bool has_key(int k) const { return k >= 0 && k < _n; }\n"
+                "  T get_val(int k) const { return _items[k & 3]; }\n"
+                "  void set_val(int k, T v) { _items[k & 3] = v; }\n"
+                "  void clear_val(int k) { _items[k & 3] = T(); }\n"
+                "  __make_map_property(vals, has_key, get_val, set_val, clear_val);\n"
+                "  int plain_method(int a) const { return a + _n; }\n"
+                "  T field;\n"
+                "private:\n  T _v;\n  T _items[4];\n  int _n;\n};\n") % (name, name)
+    atom("tpl_twice", "plain", tpl("TwBox") + "typedef TwBox<int> TwBoxI;\ntypedef TwBox<float> TwBoxF;\n"
+         "typedef TwBox<double> TwBoxD;\n" + tpl("TwOnce") + "typedef TwOnce<int> TwOnceI;\n"
+         "class TwUser {\n__published:\n  TwUser() {}\n"
+         "  float use_f(const TwBoxF &b) const { return b.get_value(); }\n"
+         "  int use_i(const TwBoxI &b) const { return b.get_value(); }\n"
+         "  TwBoxD make_d() const { return TwBoxD(); }\n};\n")
+
+
+_template_atoms()
+
 ATOM_BY_NAME = {a.name: a for a in ATOMS}
 GROUPS = {}
 for _a in ATOMS:
